@@ -261,29 +261,76 @@ Proof.
   unfold bucket_remove. rewrite filter_In, negb_true_iff, Nat.eqb_neq. tauto.
 Qed.
 
-Lemma tbl_idx_spec mpg gn i : tbl_idx mpg gn = Some i -> Z.of_nat i = gn + mpg.
-Proof. unfold tbl_idx. destruct (Z.leb_spec 0 (gn + mpg)) as [L|L]; intros E; inversion E. lia. Qed.
+Lemma tbl_idx_spec mpg gn k : tbl_idx mpg gn = Some k -> k = gn /\ - mpg <= gn <= mpg.
+Proof.
+  unfold tbl_idx. destruct (Z.leb_spec 0 (gn + mpg)) as [L|L]; cbn [andb]; [|discriminate].
+  destruct (Z.ltb_spec (gn + mpg) (2 * mpg + 1)) as [U|U]; intros E; inversion E. split; [reflexivity|lia].
+Qed.
 
-Lemma tbl_idx_ok mpg gn : 0 <= gn + mpg -> tbl_idx mpg gn = Some (Z.to_nat (gn + mpg)).
-Proof. intros H0. unfold tbl_idx. destruct (Z.leb_spec 0 (gn + mpg)) as [L|L]; [reflexivity|lia]. Qed.
+Lemma tbl_idx_ok mpg gn : - mpg <= gn <= mpg -> tbl_idx mpg gn = Some gn.
+Proof.
+  intros H0. unfold tbl_idx. destruct (Z.leb_spec 0 (gn + mpg)) as [L|L]; [|lia].
+  destruct (Z.ltb_spec (gn + mpg) (2 * mpg + 1)) as [U|U]; [reflexivity|lia].
+Qed.
+
+(* the association list behaves as the slice of buckets *)
+Lemma tget_tset : forall t k b k', tget (tset t k b) k' = if k =? k' then b else tget t k'.
+Proof.
+  induction t as [|[k0 b0] t IH]; intros k b k'; cbn [tset tget].
+  - reflexivity.
+  - destruct (Z.eqb_spec k0 k) as [->|N0]; cbn [tget].
+    + destruct (Z.eqb_spec k k'); reflexivity.
+    + destruct (Z.ltb_spec k0 k); cbn [tget].
+      * reflexivity.
+      * rewrite IH. destruct (Z.eqb_spec k0 k') as [->|N1]; [|reflexivity].
+        destruct (Z.eqb_spec k k'); [congruence|reflexivity].
+Qed.
+
+(* strictly descending gains: the scan of the stored buckets is the top-down scan of the slice *)
+Fixpoint tsorted (t : table) : Prop :=
+  match t with
+  | [] => True
+  | (k, _) :: t' => (forall k' b', In (k', b') t' -> k' < k) /\ tsorted t'
+  end.
+
+Lemma tset_keys : forall t k b k' b', In (k', b') (tset t k b) -> k' = k \/ In (k', b') t.
+Proof.
+  induction t as [|[k0 b0] t IH]; intros k b k' b' H; cbn [tset] in H.
+  - destruct H as [E|[]]. inversion E. left; reflexivity.
+  - destruct (k0 =? k).
+    + destruct H as [E|H]; [inversion E; left; reflexivity|right; right; exact H].
+    + destruct (k0 <? k).
+      * destruct H as [E|H]; [inversion E; left; reflexivity|right; exact H].
+      * destruct H as [E|H]; [right; left; exact E|]. apply IH in H. destruct H; [left; assumption|right; right; assumption].
+Qed.
+
+Lemma tset_sorted : forall t k b, tsorted t -> tsorted (tset t k b).
+Proof.
+  induction t as [|[k0 b0] t IH]; intros k b S; cbn [tset].
+  - cbn. split; [intros ? ? []|exact I].
+  - cbn [tsorted] in S. destruct S as [S1 S2]. destruct (Z.eqb_spec k0 k) as [->|N0].
+    + cbn [tsorted]. split; assumption.
+    + destruct (Z.ltb_spec k0 k) as [L|L].
+      * cbn [tsorted]. split; [|split; assumption].
+        intros k' b' [E|H]; [inversion E; subst; exact L|]. specialize (S1 _ _ H). lia.
+      * cbn [tsorted]. split; [|apply IH; exact S2].
+        intros k' b' H. apply tset_keys in H. destruct H as [->|H]; [lia|eauto].
+Qed.
+
+Lemma tsorted_In_tget : forall t k b, tsorted t -> In (k, b) t -> tget t k = b.
+Proof.
+  induction t as [|[k0 b0] t IH]; intros k b S H; [destruct H|].
+  cbn [tsorted] in S. destruct S as [S1 S2]. cbn [tget]. destruct H as [E|H].
+  - inversion E; subst. now rewrite Z.eqb_refl.
+  - specialize (S1 _ _ H). destruct (Z.eqb_spec k0 k); [lia|]. apply IH; assumption.
+Qed.
 
 Lemma tbl_upd_spec t oi f t' : tbl_upd t oi f = Some t' ->
-  exists i, oi = Some i /\ (i < length t)%nat /\ t' = set_nth t i (f (nth i t [])).
-Proof.
-  unfold tbl_upd. destruct oi as [i|]; [|discriminate]. destruct (nth_opt t i) as [b|] eqn:E; [|discriminate].
-  intros H; inversion H; subst. exists i. split; [reflexivity|]. split; [eapply nth_opt_Some; eauto|].
-  now rewrite (nth_opt_nth _ _ [] _ E).
-Qed.
+  exists k, oi = Some k /\ t' = tset t k (f (tget t k)).
+Proof. unfold tbl_upd. destruct oi as [k|]; [|discriminate]. intros H; inversion H. eauto. Qed.
 
-Lemma tbl_upd_ok t i f : (i < length t)%nat -> tbl_upd t (Some i) f = Some (set_nth t i (f (nth i t []))).
-Proof. intros H. unfold tbl_upd. now rewrite (nth_opt_nth_lt t i [] H). Qed.
-
-Lemma nth_tbl_set (t : table) i j b : (i < length t)%nat ->
-  nth j (set_nth t i b) [] = if Nat.eqb i j then b else nth j t [].
-Proof.
-  intros H. rewrite nth_set_nth. replace (Nat.ltb i (length t)) with true by (symmetry; apply Nat.ltb_lt; exact H).
-  now rewrite andb_true_r.
-Qed.
+Lemma tbl_upd_ok t k f : tbl_upd t (Some k) f = Some (tset t k (f (tget t k))).
+Proof. reflexivity. Qed.
 
 Lemma wt_row_cons u0 w r u : wt_row ((u0, w) :: r) u = (if Nat.eqb u0 u then w else 0) + wt_row r u.
 Proof. reflexivity. Qed.
@@ -301,16 +348,14 @@ Hypothesis Hwpos : Forall (fun w => 0 <= w) ws.
 Hypothesis Hmpg0 : 0 <= mpg.
 Hypothesis Hmpg : forall v, row_weight (rowof g v) <= mpg.
 
-Definition tlen : nat := Z.to_nat (2 * mpg + 1).
-
 (* every bucket is labelled with the stored gain of its members *)
 Definition bucket_inv (v2g : list (option Z)) (t : table) : Prop :=
-  forall i u, In u (nth i t []) -> nth_opt v2g u = Some (Some (Z.of_nat i - mpg)).
+  forall k u, In u (tget t k) -> nth_opt v2g u = Some (Some k).
 
 Lemma upd_nbrs_inv p' init : forall r v2g t v2g' t',
-  length v2g = n -> length t = tlen -> bucket_inv v2g t ->
+  length v2g = n -> tsorted t -> bucket_inv v2g t ->
   upd_nbrs mpg p' init r v2g t = Some (v2g', t') ->
-  length v2g' = n /\ length t' = tlen /\ bucket_inv v2g' t'
+  length v2g' = n /\ tsorted t' /\ bucket_inv v2g' t'
   /\ (forall u, nth_opt v2g' u =
                 match nth_opt v2g u with
                 | Some (Some x) => Some (Some (x + (if (pfun p' u =? init)%N then 2 else -2) * wt_row r u))
@@ -325,26 +370,26 @@ Proof.
       set (new := if (pu =? init)%N then old + 2 * w else old - 2 * w) in *.
       destruct (tbl_upd t (tbl_idx mpg old) (fun b => bucket_remove b u0)) as [t1|] eqn:E1; [|discriminate].
       destruct (tbl_upd t1 (tbl_idx mpg new) (fun b => bucket_insert b u0)) as [t2|] eqn:E2; [|discriminate].
-      apply tbl_upd_spec in E1. destruct E1 as [io [Eio [Lio Et1]]].
-      apply tbl_upd_spec in E2. destruct E2 as [inw [Einw [Linw Et2]]].
-      apply tbl_idx_spec in Eio. apply tbl_idx_spec in Einw.
+      apply tbl_upd_spec in E1. destruct E1 as [io [Eio Et1]].
+      apply tbl_upd_spec in E2. destruct E2 as [inw [Einw Et2]].
+      apply tbl_idx_spec in Eio. destruct Eio as [Eio _]. apply tbl_idx_spec in Einw. destruct Einw as [Einw _].
       assert (Lu0 : (u0 < length v2g)%nat) by (eapply nth_opt_Some; eauto).
-      assert (Lt1 : length t1 = tlen) by (rewrite Et1, set_nth_length; exact Lt).
+      assert (Lt1 : tsorted t1) by (rewrite Et1; apply tset_sorted; exact Lt).
       assert (Hb2 : bucket_inv (set_nth v2g u0 (Some new)) t2).
-      { intros i u Hin. rewrite Et2 in Hin. rewrite nth_tbl_set in Hin by exact Linw.
-        assert (Old : In u (nth i t1 []) -> nth_opt (set_nth v2g u0 (Some new)) u = Some (Some (Z.of_nat i - mpg))).
-        { intros Hin1. rewrite Et1 in Hin1. rewrite nth_tbl_set in Hin1 by exact Lio.
-          destruct (Nat.eqb_spec io i) as [->|Hne].
+      { intros i u Hin. rewrite Et2 in Hin. rewrite tget_tset in Hin.
+        assert (Old : In u (tget t1 i) -> nth_opt (set_nth v2g u0 (Some new)) u = Some (Some i)).
+        { intros Hin1. rewrite Et1 in Hin1. rewrite tget_tset in Hin1.
+          destruct (Z.eqb_spec io i) as [->|Hne].
           - apply In_bucket_remove in Hin1. destruct Hin1 as [Hin1 Hne]. apply Hb in Hin1.
             rewrite nth_opt_set_nth_other by auto. exact Hin1.
           - pose proof (Hb _ _ Hin1) as Hg. destruct (Nat.eq_dec u u0) as [->|Hne2].
             + rewrite E0 in Hg. inversion Hg. lia.
             + rewrite nth_opt_set_nth_other by auto. exact Hg. }
-        destruct (Nat.eqb_spec inw i) as [->|Hne]; [|auto].
+        destruct (Z.eqb_spec inw i) as [->|Hne]; [|auto].
         apply In_bucket_insert in Hin. destruct Hin as [->|Hin]; [|auto].
         rewrite nth_opt_set_nth_same by exact Lu0. do 2 f_equal. lia. }
       assert (Lv2 : length (set_nth v2g u0 (Some new)) = n) by (rewrite set_nth_length; exact Lv).
-      assert (Lt2 : length t2 = tlen) by (rewrite Et2, set_nth_length; exact Lt1).
+      assert (Lt2 : tsorted t2) by (rewrite Et2; apply tset_sorted; exact Lt1).
       destruct (IH (set_nth v2g u0 (Some new)) t2 v2g' t' Lv2 Lt2 Hb2 H) as [L1 [L2 [B3 G]]].
       repeat split; auto. intros u. rewrite G, wt_row_cons.
       destruct (Nat.eqb_spec u0 u) as [->|Hne].
@@ -373,7 +418,7 @@ Record inv (st : fm_st) : Prop := {
   i_len : length (s_p st) = n;
   i_two : two_way (s_p st);
   i_v2g_len : length (s_v2g st) = n;
-  i_tbl_len : length (s_g2v st) = tlen;
+  i_sorted : tsorted (s_g2v st);
   i_gain : forall v gv, nth_opt (s_v2g st) v = Some (Some gv) -> gv = row_gain (pfun (s_p st)) v (rowof g v);
   i_bucket : bucket_inv (s_v2g st) (s_g2v st);
   i_cur : s_cur st = edge_cut g (s_p st);
@@ -414,10 +459,9 @@ Proof.
   intros I H. unfold choice_ok in H. apply andb_true_iff in H. destruct H as [H H3].
   apply andb_true_iff in H. destruct H as [_ H2]. split.
   - destruct (tbl_idx mpg gn) as [i|] eqn:Ei; [|discriminate].
-    destruct (nth_opt (s_g2v st) i) as [b|] eqn:Eb; [|discriminate].
     apply existsb_exists in H2. destruct H2 as [x [Hx E]]. apply Nat.eqb_eq in E. subst x.
-    apply tbl_idx_spec in Ei. rewrite <- (nth_opt_nth _ _ [] _ Eb) in Hx.
-    rewrite (i_bucket st I _ _ Hx). do 2 f_equal. lia.
+    apply tbl_idx_spec in Ei. destruct Ei as [-> _].
+    apply (i_bucket st I _ _ Hx).
   - unfold feas in H3. destruct (nth_opt ws v) as [w|] eqn:Ew; [|discriminate].
     destruct (nth_opt (s_p st) v) as [init|] eqn:Ep; [|discriminate].
     unfold other in H3. destruct (N.leb_spec init 1) as [L|L]; [|discriminate].
@@ -462,18 +506,18 @@ Proof.
   pose proof (i_len st I) as Lp. pose proof (i_two st I) as T2.
   assert (Pv : pfun (s_p st) v = init) by (apply pfun_nth_opt; exact Ep).
   assert (Ltgt : (tgt <= 1)%N) by (unfold tgt; lia).
-  apply tbl_upd_spec in E1. destruct E1 as [ig [Eig [Lig Et1]]]. apply tbl_idx_spec in Eig.
+  apply tbl_upd_spec in E1. destruct E1 as [ig [Eig Et1]]. apply tbl_idx_spec in Eig. destruct Eig as [Eig _].
   (* tables after the loop *)
   assert (Hb1 : bucket_inv (set_nth (s_v2g st) v None) t1).
-  { intros i u Hin. rewrite Et1 in Hin. rewrite nth_tbl_set in Hin by exact Lig.
-    destruct (Nat.eqb_spec ig i) as [->|Hne].
+  { intros i u Hin. rewrite Et1 in Hin. rewrite tget_tset in Hin.
+    destruct (Z.eqb_spec ig i) as [->|Hne].
     - apply In_bucket_remove in Hin. destruct Hin as [Hin Hne]. rewrite nth_opt_set_nth_other by auto.
       apply (i_bucket st I). exact Hin.
     - pose proof (i_bucket st I _ _ Hin) as Hg. destruct (Nat.eq_dec u v) as [->|Hne2].
       + rewrite Hvg in Hg. inversion Hg. lia.
       + rewrite nth_opt_set_nth_other by auto. exact Hg. }
   assert (Lv1 : length (set_nth (s_v2g st) v None) = n) by (rewrite set_nth_length; apply (i_v2g_len st I)).
-  assert (Lt1 : length t1 = tlen) by (rewrite Et1, set_nth_length; apply (i_tbl_len st I)).
+  assert (Lt1 : tsorted t1) by (rewrite Et1; apply tset_sorted; apply (i_sorted st I)).
   destruct (upd_nbrs_inv p' init r (set_nth (s_v2g st) v None) t1 v2g' t2 Lv1 Lt1 Hb1 Eu) as [Lv' [Lt' [Hb' G]]].
   assert (Gv : nth_opt v2g' v = Some None).
   { rewrite G. rewrite nth_opt_set_nth_same by (rewrite (i_v2g_len st I); exact Hvn). reflexivity. }
@@ -679,13 +723,13 @@ Qed.
 
 (* the tables built at the start of a pass *)
 Lemma init_tables_spec p : length p = n -> forall pv g1 p1 rows t v2g t',
-  g = g1 ++ rows -> p = p1 ++ pv -> length g1 = length p1 -> length t = tlen ->
-  (forall i u, In u (nth i t []) -> (u < length p1)%nat /\ row_gain (pfun p) u (rowof g u) = Z.of_nat i - mpg) ->
+  g = g1 ++ rows -> p = p1 ++ pv -> length g1 = length p1 -> tsorted t ->
+  (forall k u, In u (tget t k) -> (u < length p1)%nat /\ row_gain (pfun p) u (rowof g u) = k) ->
   init_tables p mpg (length p1) rows pv t = Some (v2g, t') ->
-  length v2g = length pv /\ length t' = tlen
+  length v2g = length pv /\ tsorted t'
   /\ (forall j, (j < length pv)%nat ->
         nth_opt v2g j = Some (Some (row_gain (pfun p) (length p1 + j) (rowof g (length p1 + j)))))
-  /\ (forall i u, In u (nth i t' []) -> (u < n)%nat /\ row_gain (pfun p) u (rowof g u) = Z.of_nat i - mpg).
+  /\ (forall k u, In u (tget t' k) -> (u < n)%nat /\ row_gain (pfun p) u (rowof g u) = k).
 Proof.
   intros Lp. induction pv as [|x pv IH]; intros g1 p1 rows t v2g t' Eg Epp Ll Lt Ht H; cbn [init_tables] in H.
   - inversion H; subst. split; [reflexivity|]. split; [exact Lt|]. split.
@@ -701,22 +745,23 @@ Proof.
     destruct (row_gain_chk p (pfun p (length p1)) r) as [gn|] eqn:Eg0; [|discriminate].
     apply row_gain_chk_some in Eg0. rewrite <- Er in Eg0.
     destruct (tbl_upd t (tbl_idx mpg gn) (fun b => bucket_insert b (length p1))) as [t1|] eqn:E1; [|discriminate].
-    apply tbl_upd_spec in E1. destruct E1 as [ig [Eig [Lig Et1]]]. apply tbl_idx_spec in Eig.
+    apply tbl_upd_spec in E1. destruct E1 as [ig [Eig Et1]]. apply tbl_idx_spec in Eig. destruct Eig as [Eig _].
     destruct (init_tables p mpg (S (length p1)) rows pv t1) as [[l t2]|] eqn:Ei; [|discriminate].
     inversion H; subst v2g t'; clear H.
     replace (S (length p1)) with (length (p1 ++ [x])) in Ei by (rewrite app_length; cbn [length]; lia).
-    assert (Ht1 : forall i u, In u (nth i t1 []) ->
-              (u < length (p1 ++ [x]))%nat /\ row_gain (pfun p) u (rowof g u) = Z.of_nat i - mpg).
-    { intros i u Hin. rewrite app_length. cbn [length]. rewrite Et1 in Hin. rewrite nth_tbl_set in Hin by exact Lig.
-      destruct (Nat.eqb_spec ig i) as [->|Hne].
+    assert (Ht1 : forall k u, In u (tget t1 k) ->
+              (u < length (p1 ++ [x]))%nat /\ row_gain (pfun p) u (rowof g u) = k).
+    { intros i u Hin. rewrite app_length. cbn [length]. rewrite Et1 in Hin. rewrite tget_tset in Hin.
+      destruct (Z.eqb_spec ig i) as [->|Hne].
       - apply In_bucket_insert in Hin. destruct Hin as [->|Hin].
         + split; [lia|]. rewrite <- Eg0. lia.
         + apply Ht in Hin. destruct Hin; split; [lia|assumption].
       - apply Ht in Hin. destruct Hin; split; [lia|assumption]. }
+    assert (St1 : tsorted t1) by (rewrite Et1; apply tset_sorted; exact Lt).
     destruct (IH (g1 ++ [r]) (p1 ++ [x]) rows t1 l t2
                 ltac:(rewrite <- app_assoc; exact Eg) ltac:(rewrite <- app_assoc; exact Epp)
                 ltac:(rewrite !app_length; cbn [length]; lia)
-                ltac:(rewrite Et1, set_nth_length; exact Lt) Ht1 Ei) as [L1 [L2 [G B]]].
+                St1 Ht1 Ei) as [L1 [L2 [G B]]].
     split; [cbn [length]; lia|]. split; [exact L2|]. split; [|exact B].
     intros j Hj. destruct j as [|j]; cbn [nth_opt].
     + rewrite Nat.add_0_r. now rewrite Eg0.
@@ -724,18 +769,15 @@ Proof.
       replace (length p1 + 1 + j)%nat with (length p1 + S j)%nat by lia. reflexivity.
 Qed.
 
-Lemma nth_repeat_nil (k i : nat) : nth i (repeat (@nil nat) k) [] = [].
-Proof. revert i; induction k as [|k IH]; intros [|i]; cbn [repeat nth]; auto. Qed.
-
 (* the state a pass starts from satisfies the invariant *)
 Lemma pass_start p v2g t : length p = n -> two_way p -> capb p -> p = pstart -> best0 = edge_cut g p ->
-  init_tables p mpg 0 g p (repeat [] (Z.to_nat (2 * mpg + 1))) = Some (v2g, t) ->
+  init_tables p mpg 0 g p [] = Some (v2g, t) ->
   inv {| s_p := p; s_pw := (load ws p 0, load ws p 1); s_v2g := v2g; s_g2v := t; s_cur := best0; s_best := best0;
          s_bestmove := None; s_nbad := 0%N; s_hist := [] |}.
 Proof.
   intros Lp T2 C Eps Eb H.
-  destruct (init_tables_spec p Lp p [] [] g _ v2g t eq_refl eq_refl eq_refl (repeat_length _ _)
-              ltac:(intros i u Hin; rewrite nth_repeat_nil in Hin; destruct Hin) H) as [L1 [L2 [G B]]].
+  destruct (init_tables_spec p Lp p [] [] g [] v2g t eq_refl eq_refl eq_refl I
+              ltac:(intros i u Hin; destruct Hin) H) as [L1 [L2 [G B]]].
   cbn [length Nat.add] in G.
   constructor; cbn [s_p s_pw s_v2g s_g2v s_cur s_best s_bestmove s_hist rewind_to skipn undo length]; auto.
   - lia.
@@ -788,7 +830,7 @@ Proof. intros H Hab. apply Forall2_app; [exact H|constructor; [exact Hab|constru
 Lemma pass_step p pw best mpp rpp pass v2g t moves st p' pw' :
   pinv p pw best mpp rpp pass ->
   match fm_max_passes cfg with Some m => (m <=? pass)%N | None => false end = false ->
-  init_tables p mpg 0 g p (repeat [] (Z.to_nat (2 * mpg + 1))) = Some (v2g, t) ->
+  init_tables p mpg 0 g p [] = Some (v2g, t) ->
   fm_moves cfg g ws mpg cap (S (length p)) 0
     {| s_p := p; s_pw := pw; s_v2g := v2g; s_g2v := t; s_cur := best; s_best := best;
        s_bestmove := None; s_nbad := 0%N; s_hist := [] |} moves = Ok (MvOk st) ->
@@ -802,7 +844,7 @@ Lemma pass_step p pw best mpp rpp pass v2g t moves st p' pw' :
 Proof.
   intros Q Hlim Hi Hm Hr.
   pose proof (q_len _ _ _ _ _ _ Q) as Lp.
-  assert (I0 : inv g ws n mpg cap p_in p best
+  assert (I0 : inv g ws n cap p_in p best
                  {| s_p := p; s_pw := pw; s_v2g := v2g; s_g2v := t; s_cur := best; s_best := best;
                     s_bestmove := None; s_nbad := 0%N; s_hist := [] |}).
   { rewrite (q_pw _ _ _ _ _ _ Q).
@@ -811,7 +853,7 @@ Proof.
   assert (Hm0 : forall m : N, fm_max_moves cfg = Some m -> (N.of_nat 0 <= m)%N) by (intros m _; lia).
   destruct (fm_moves_inv g ws n mpg cap Hwf Hsym Hnsl Hws Hwpos p_in p best Lp cfg _ 0%nat _ _ st I0 eq_refl Hm0 Hm)
     as [I Hmm].
-  destruct (pass_end g ws n mpg cap Hwf Hws p_in p best Lp st I) as [Er [Lpe [Tpe [Ebest [Cpe [Hham [Hk Hble]]]]]]].
+  destruct (pass_end g ws n cap Hwf Hws p_in p best Lp st I) as [Er [Lpe [Tpe [Ebest [Cpe [Hham [Hk Hble]]]]]]].
   fold (rewind_to st) in Hr. rewrite Er in Hr. inversion Hr; subst p' pw'; clear Hr.
   fold (rewind_to st).
   set (pe := undo (s_p st) (skipn (rewind_to st) (s_hist st))) in *.
@@ -838,7 +880,7 @@ Proof.
   { destruct orc; inversion H; subst. eauto. }
   destruct orc as [|[rc moves] orc']; [discriminate|].
   destruct (negb (rc =? best)); [discriminate|].
-  destruct (init_tables p mpg 0 g p (repeat [] (Z.to_nat (2 * mpg + 1)))) as [[v2g t]|] eqn:Hi; [|discriminate].
+  destruct (init_tables p mpg 0 g p []) as [[v2g t]|] eqn:Hi; [|discriminate].
   destruct (fm_moves cfg g ws mpg cap (S (length p)) 0 _ moves) as [[st|c]| | |] eqn:Hm; try discriminate.
   destruct (rewind ws (s_p st) (s_pw st) _) as [[pe pwe]|] eqn:Hr; [|discriminate].
   destruct (pass_step _ _ _ _ _ _ _ _ _ _ _ _ Q Hlim Hi Hm Hr) as [Q' _].
@@ -850,12 +892,12 @@ Qed.
 (* ---- the debug assertion `current_edge_cut == edge_cut(partition)` never fires ---- *)
 
 Lemma do_move_no6 pstart best0 dbg st move_num v gn mint gv : length pstart = n ->
-  inv g ws n mpg cap p_in pstart best0 st ->
+  inv g ws n cap p_in pstart best0 st ->
   choice_ok ws st mpg cap gn mint v gv = true ->
   do_move dbg g ws mpg st move_num v gn <> Panic 6.
 Proof.
   intros Lps I Hc.
-  destruct (choice_ok_facts g ws n mpg cap Hws Hwpos p_in pstart best0 Lps st gn mint v gv I Hc)
+  destruct (choice_ok_facts g ws n mpg cap Hwpos p_in pstart best0 st gn mint v gv I Hc)
     as [Hvg [w [init [Ew [Ep [Li [Hw0 [Hfe Hvn]]]]]]]].
   unfold do_move. rewrite Ep, Ew.
   destruct (nth_opt g v) as [r|] eqn:Er; [|discriminate].
@@ -863,17 +905,17 @@ Proof.
   destruct (tbl_upd (s_g2v st) (tbl_idx mpg gn) (fun b => bucket_remove b v)) as [t1|]; [|discriminate].
   assert (Hcut : s_cur st - gn = edge_cut_sprs g (set_nth (s_p st) v (1 - init)%N)).
   { rewrite edge_cut_sprs_eq by exact Hsorted.
-    pose proof (i_len _ _ _ _ _ _ _ _ _ I) as Lp.
+    pose proof (i_len _ _ _ _ _ _ _ _ I) as Lp.
     assert (Pv : pfun (s_p st) v = init) by (apply pfun_nth_opt; exact Ep).
     rewrite <- Pv. rewrite edge_cut_flip; try assumption; try (rewrite Lp; assumption).
-    - rewrite (i_cur _ _ _ _ _ _ _ _ _ I). f_equal. apply (i_gain _ _ _ _ _ _ _ _ _ I). exact Hvg.
-    - apply (i_two _ _ _ _ _ _ _ _ _ I). }
+    - rewrite (i_cur _ _ _ _ _ _ _ _ I). f_equal. apply (i_gain _ _ _ _ _ _ _ _ I). exact Hvg.
+    - apply (i_two _ _ _ _ _ _ _ _ I). }
   rewrite Hcut, Z.eqb_refl, andb_false_r.
   destruct (upd_nbrs _ _ _ _ _ _) as [[? ?]|]; discriminate.
 Qed.
 
 Lemma fm_moves_no6 pstart best0 : length pstart = n -> forall fuel move_num st orc,
-  inv g ws n mpg cap p_in pstart best0 st -> length (s_hist st) = move_num ->
+  inv g ws n cap p_in pstart best0 st -> length (s_hist st) = move_num ->
   fm_moves cfg g ws mpg cap fuel move_num st orc <> Panic 6.
 Proof.
   intros Lps. induction fuel as [|f IH]; intros move_num st orc I Hmn; cbn [fm_moves]; [discriminate|].
@@ -883,7 +925,7 @@ Proof.
   destruct orc as [|[v gv] orc']; [discriminate|].
   destruct (choice_ok ws st mpg cap gn mint v gv) eqn:Hc; [|discriminate].
   match goal with |- context [do_move _ _ _ _ ?s _ _ _] => set (st1 := s) in * end.
-  assert (I1 : inv g ws n mpg cap p_in pstart best0 st1) by (apply inv_set_nbad; exact I).
+  assert (I1 : inv g ws n cap p_in pstart best0 st1) by (apply inv_set_nbad; exact I).
   assert (Hc1 : choice_ok ws st1 mpg cap gn mint v gv = true) by exact Hc.
   destruct (do_move (fm_dbg cfg) g ws mpg st1 move_num v gn) as [st2|e|s|] eqn:Ed; try discriminate.
   - destruct (do_move_inv g ws n mpg cap Hwf Hsym Hnsl Hws Hwpos p_in pstart best0 Lps _ st1 move_num v gn mint gv st2
@@ -900,7 +942,7 @@ Proof.
   destruct (match fm_max_passes cfg with Some m => (m <=? pass)%N | None => false end) eqn:Hlim; [discriminate|].
   destruct orc as [|[rc moves] orc']; [discriminate|].
   destruct (negb (rc =? best)); [discriminate|].
-  destruct (init_tables p mpg 0 g p (repeat [] (Z.to_nat (2 * mpg + 1)))) as [[v2g t]|] eqn:Hi; [|discriminate].
+  destruct (init_tables p mpg 0 g p []) as [[v2g t]|] eqn:Hi; [|discriminate].
   pose proof (q_len _ _ _ _ _ _ Q) as Lp.
   destruct (fm_moves cfg g ws mpg cap (S (length p)) 0 _ moves) as [[st|c]| |s|] eqn:Hm; try discriminate.
   - destruct (rewind ws (s_p st) (s_pw st) _) as [[pe pwe]|] eqn:Hr; [|discriminate].
@@ -915,17 +957,17 @@ Qed.
 (* ------------------------------------------------------------ termination *)
 
 (* a pass moves every vertex at most once *)
-Lemma hist_short pstart best0 st : inv g ws n mpg cap p_in pstart best0 st -> (length (s_hist st) <= n)%nat.
+Lemma hist_short pstart best0 st : inv g ws n cap p_in pstart best0 st -> (length (s_hist st) <= n)%nat.
 Proof.
   intros I. rewrite <- (map_length fst). rewrite <- (seq_length n 0).
-  apply NoDup_incl_length; [apply (i_nodup _ _ _ _ _ _ _ _ _ I)|].
+  apply NoDup_incl_length; [apply (i_nodup _ _ _ _ _ _ _ _ I)|].
   intros v Hin. apply in_map_iff in Hin. destruct Hin as [[u i] [E Hin]]. cbn [fst] in E. subst u.
-  apply in_seq. destruct (i_hpart _ _ _ _ _ _ _ _ _ I _ _ Hin) as [_ Hp].
-  apply nth_opt_Some in Hp. rewrite (i_len _ _ _ _ _ _ _ _ _ I) in Hp. lia.
+  apply in_seq. destruct (i_hpart _ _ _ _ _ _ _ _ I _ _ Hin) as [_ Hp].
+  apply nth_opt_Some in Hp. rewrite (i_len _ _ _ _ _ _ _ _ I) in Hp. lia.
 Qed.
 
 Lemma fm_moves_terminates pstart best0 : length pstart = n -> forall fuel move_num st orc,
-  inv g ws n mpg cap p_in pstart best0 st -> length (s_hist st) = move_num ->
+  inv g ws n cap p_in pstart best0 st -> length (s_hist st) = move_num ->
   (n < fuel + move_num)%nat ->
   fm_moves cfg g ws mpg cap fuel move_num st orc <> OutOfFuel.
 Proof.
@@ -937,7 +979,7 @@ Proof.
     destruct orc as [|[v gv] orc']; [discriminate|].
     destruct (choice_ok ws st mpg cap gn mint v gv) eqn:Hc; [|discriminate].
     match goal with |- context [do_move _ _ _ _ ?s _ _ _] => set (st1 := s) in * end.
-    assert (I1 : inv g ws n mpg cap p_in pstart best0 st1) by (apply inv_set_nbad; exact I).
+    assert (I1 : inv g ws n cap p_in pstart best0 st1) by (apply inv_set_nbad; exact I).
     assert (Hc1 : choice_ok ws st1 mpg cap gn mint v gv = true) by exact Hc.
     destruct (do_move (fm_dbg cfg) g ws mpg st1 move_num v gn) as [st2|e|s|] eqn:Ed; try discriminate.
     + destruct (do_move_inv g ws n mpg cap Hwf Hsym Hnsl Hws Hwpos p_in pstart best0 Lps _ st1 move_num v gn mint gv st2
@@ -958,7 +1000,7 @@ Proof.
   destruct (match fm_max_passes cfg with Some m => (m <=? pass)%N | None => false end) eqn:Hlim; [discriminate|].
   destruct orc as [|[rc moves] orc']; [discriminate|].
   destruct (negb (rc =? best)); [discriminate|].
-  destruct (init_tables p mpg 0 g p (repeat [] (Z.to_nat (2 * mpg + 1)))) as [[v2g t]|] eqn:Hi; [|discriminate].
+  destruct (init_tables p mpg 0 g p []) as [[v2g t]|] eqn:Hi; [|discriminate].
   pose proof (q_len _ _ _ _ _ _ Q) as Lp.
   destruct (fm_moves cfg g ws mpg cap (S (length p)) 0 _ moves) as [[st|c]| | |] eqn:Hm; try discriminate.
   - destruct (rewind ws (s_p st) (s_pw st) _) as [[pe pwe]|] eqn:Hr; [|discriminate].
@@ -1175,12 +1217,12 @@ Hypothesis Hmpg0 : 0 <= mpg.
 Hypothesis Hmpg : forall v, row_weight (rowof g v) <= mpg.
 Hypothesis Hps : length pstart = n.
 Variable st0 : fm_st.
-Hypothesis I0 : inv g ws n mpg cap p_in pstart best0 st0.
+Hypothesis I0 : inv g ws n cap p_in pstart best0 st0.
 
-Lemma reach_inv st : pass_reach dbg g ws mpg cap st0 st -> inv g ws n mpg cap p_in pstart best0 st.
+Lemma reach_inv st : pass_reach dbg g ws mpg cap st0 st -> inv g ws n cap p_in pstart best0 st.
 Proof.
   induction 1 as [|st x v gn mint gv st' R IH Hc Ed]; [exact I0|].
-  assert (I1 : inv g ws n mpg cap p_in pstart best0 (with_nbad st x)) by (apply inv_set_nbad; exact IH).
+  assert (I1 : inv g ws n cap p_in pstart best0 (with_nbad st x)) by (apply inv_set_nbad; exact IH).
   assert (Hc1 : choice_ok ws (with_nbad st x) mpg cap gn mint v gv = true) by exact Hc.
   destruct (do_move_inv g ws n mpg cap Hwf Hsym Hnsl Hws Hwpos p_in pstart best0 Hps dbg (with_nbad st x)
               (length (s_hist st)) v gn mint gv st' I1 eq_refl Hc1 Ed) as [I2 _].
@@ -1192,26 +1234,25 @@ Qed.
 Lemma reach_gain_invariant st : pass_reach dbg g ws mpg cap st0 st ->
   (forall v gv, nth_opt (s_v2g st) v = Some (Some gv) ->
      gv = row_gain (pfun (s_p st)) v (rowof g v)
-     /\ exists i, tbl_idx mpg gv = Some i /\ (i < length (s_g2v st))%nat)
-  /\ (forall i v, In v (nth i (s_g2v st) []) -> nth_opt (s_v2g st) v = Some (Some (Z.of_nat i - mpg))).
+     /\ tbl_idx mpg gv = Some gv)
+  /\ (forall k v, In v (tget (s_g2v st) k) -> nth_opt (s_v2g st) v = Some (Some k)).
 Proof.
-  intros R. pose proof (reach_inv st R) as I. split; [|apply (i_bucket _ _ _ _ _ _ _ _ _ I)].
-  intros v gv Hv. pose proof (i_gain _ _ _ _ _ _ _ _ _ I v gv Hv) as Eg. split; [exact Eg|].
+  intros R. pose proof (reach_inv st R) as I. split; [|apply (i_bucket _ _ _ _ _ _ _ _ I)].
+  intros v gv Hv. pose proof (i_gain _ _ _ _ _ _ _ _ I v gv Hv) as Eg. split; [exact Eg|].
   pose proof (row_gain_bound (pfun (s_p st)) v (rowof g v) (rowof_nonneg g v Hnn)) as B.
   pose proof (Hmpg v) as M. rewrite <- Eg in B.
-  exists (Z.to_nat (gv + mpg)). split; [apply tbl_idx_ok; lia|].
-  rewrite (i_tbl_len _ _ _ _ _ _ _ _ _ I). unfold tlen. lia.
+  apply tbl_idx_ok; lia.
 Qed.
 
 (* current_edge_cut is the cut of the current partition; part_weights are its loads *)
 Lemma reach_cut_tracked st : pass_reach dbg g ws mpg cap st0 st ->
   s_cur st = edge_cut g (s_p st) /\ s_pw st = (load ws (s_p st) 0, load ws (s_p st) 1).
-Proof. intros R. pose proof (reach_inv st R) as I. split; [apply (i_cur _ _ _ _ _ _ _ _ _ I)|apply (i_pw _ _ _ _ _ _ _ _ _ I)]. Qed.
+Proof. intros R. pose proof (reach_inv st R) as I. split; [apply (i_cur _ _ _ _ _ _ _ _ I)|apply (i_pw _ _ _ _ _ _ _ _ I)]. Qed.
 
 (* the cap holds at every history point *)
 Lemma reach_cap st : pass_reach dbg g ws mpg cap st0 st ->
   forall q, (q <= 1)%N -> load ws (s_p st) q <= Z.max (load ws p_in q) cap.
-Proof. intros R. pose proof (reach_inv st R) as I. apply (i_cap _ _ _ _ _ _ _ _ _ I). Qed.
+Proof. intros R. pose proof (reach_inv st R) as I. apply (i_cap _ _ _ _ _ _ _ _ I). Qed.
 End Reach.
 
 (* the state a pass starts from *)
@@ -1225,10 +1266,10 @@ Definition pass_setting (g : graph) (ws : list Z) (mpg cap : Z) (p_in p : list N
   fm_contract g ws p /\ length ws = length p /\ two_way p
   /\ 0 <= mpg /\ (forall v, row_weight (rowof g v) <= mpg)
   /\ (forall q, (q <= 1)%N -> load ws p q <= Z.max (load ws p_in q) cap)
-  /\ init_tables p mpg 0 g p (repeat [] (Z.to_nat (2 * mpg + 1))) = Some (v2g, t).
+  /\ init_tables p mpg 0 g p [] = Some (v2g, t).
 
 Lemma pass_setting_inv g ws mpg cap p_in p v2g t : pass_setting g ws mpg cap p_in p v2g t ->
-  inv g ws (length p) mpg cap p_in p (edge_cut g p) (pass_state0 ws p v2g t (edge_cut g p)).
+  inv g ws (length p) cap p_in p (edge_cut g p) (pass_state0 ws p v2g t (edge_cut g p)).
 Proof.
   intros [[Hwf [Hso [Hsy [Hns [Hnn Hwp]]]]] [Lw [T2 [M0 [M1 [C Hi]]]]]].
   apply (pass_start g ws (length p) mpg cap Hwf Hsy Hns Hnn Hso Lw M1 p_in p (edge_cut g p) eq_refl p v2g t
@@ -1240,12 +1281,12 @@ Theorem fm_gain_invariant dbg g ws mpg cap p_in p v2g t st :
   pass_reach dbg g ws mpg cap (pass_state0 ws p v2g t (edge_cut g p)) st ->
   (forall v gv, nth_opt (s_v2g st) v = Some (Some gv) ->
      gv = row_gain (pfun (s_p st)) v (rowof g v)
-     /\ exists i, tbl_idx mpg gv = Some i /\ (i < length (s_g2v st))%nat)
-  /\ (forall i v, In v (nth i (s_g2v st) []) -> nth_opt (s_v2g st) v = Some (Some (Z.of_nat i - mpg))).
+     /\ tbl_idx mpg gv = Some gv)
+  /\ (forall k v, In v (tget (s_g2v st) k) -> nth_opt (s_v2g st) v = Some (Some k)).
 Proof.
   intros S R. pose proof (pass_setting_inv _ _ _ _ _ _ _ _ S) as I0.
   destruct S as [[Hwf [Hso [Hsy [Hns [Hnn Hwp]]]]] [Lw [T2 [M0 [M1 [C Hi]]]]]].
-  exact (reach_gain_invariant dbg g ws (length p) mpg cap p_in p (edge_cut g p) Hwf Hsy Hns Hnn Lw Hwp M0 M1 eq_refl _ I0 st R).
+  exact (reach_gain_invariant dbg g ws (length p) mpg cap p_in p (edge_cut g p) Hwf Hsy Hns Hnn Lw Hwp M1 eq_refl _ I0 st R).
 Qed.
 
 Theorem fm_cut_tracked_state dbg g ws mpg cap p_in p v2g t st :
